@@ -193,6 +193,10 @@ def gen_world_history(rng: random.Random, trace: dict, gsize: int, itemsize: int
             val = gen.f32r(rng, 1e-3, 0.5) if key == "lr" else rng.choice([0.0, 1e-2, 0.1])
             events.append({"op": "set_hparam", "group": gi, "key": key, "value": val})
             continue
+        if events and rng.random() < 0.05:
+            # every rank rescales its copy of one parameter in place between two steps (clipping, a model load)
+            events.append({"op": "poke", "param": rng.randrange(n), "scale": rng.choice([0.5, 0.9, 1.25, -1.0, 2.0])})
+            continue
         mask = gen.gen_mask(rng, style, n, step, prev)
         mask = repair_mask(rng, trace, owners, gsize, mask)
         if len(events) == starve_at:
@@ -431,6 +435,7 @@ def execute(trace: dict) -> Outcome:
                 "rank_skew_run": 1 if (w.get("stickiness", 0) > 0 or min(w.get("weights") or [1.0]) < 1.0) else 0,
                 "lossy_comm_run": 1 if probes.get("lossy_compare", 0) else 0,
                 "hparam_write": sum(1 for e in trace["events"] if e["op"] == "set_hparam"),
+                "param_poke": sum(1 for e in trace["events"] if e["op"] == "poke"),
             }
         ),
         nontrivial=w["size"] >= 2 and (probes.get("exact_compare", 0) + probes.get("lossy_compare", 0)) > 0,
@@ -449,7 +454,7 @@ def sample_view(trace: dict) -> dict:
         "groups": trace["groups"],
         "params": [(p["shape"], p["dtype"]) for p in trace["params"]],
         "events": [
-            (["step", [None if g is None else g[1] for g in e["g"]]] if e["op"] == "step" else [e["op"], e["group"], e["key"], e["value"]])
+            (["step", [None if g is None else g[1] for g in e["g"]]] if e["op"] == "step" else [e["op"]] + [e[k] for k in ("group", "key", "value", "param", "scale") if k in e])
             for e in trace["events"][:10]
         ],
         "schedule_seed": trace["schedule_seed"],
